@@ -88,7 +88,8 @@ def gen(chk):
     for _ in range(60 if chk.tier == "quick" else 600):
         prog = rb(rng.choice([20, 32, 32, 2, 40, 1, 33]))
         for m in (False, True):
-            s = bech32(rng.choice(["bcrt", "bc", "tb", "a"]), [rng.choice([0, 1, 1, 2, 16])] + to5(prog), m)
+            # (the separator is the LAST '1' of the string: prefixes that contain a '1' themselves)
+            s = bech32(rng.choice(["bcrt", "bc", "tb", "a", "b1c", "1", "test1net", "x11"]), [rng.choice([0, 1, 1, 2, 16])] + to5(prog), m)
             tf("bech32-decode", [s]); il("bech32dec(%s)" % s)
             for _ in range(3):
                 p = rng.randrange(len(s)); c = rng.choice(CH + "1bio")
